@@ -118,7 +118,24 @@ func c13(args []string) error {
 			if a.parent >= 0 {
 				ph = blk[a.parent].Hash()
 			}
-			b := hotstuff.NewBlock(ph, hotstuff.NewQuorumCert(nil, 0, ph),
+			// the certificate a block carries is independent of its parent link (the store must go by the parent link): mostly the
+			// parent's, sometimes an older block's, the block's grandparent's, or none
+			qh := ph
+			switch rng.Intn(8) {
+			case 0:
+				if a.parent >= 0 && blk[a.parent].Parent() != (hotstuff.Hash{}) {
+					qh = blk[a.parent].Parent()
+				}
+			case 1:
+				if len(abs) > 0 {
+					if ob, ok := blk[abs[rng.Intn(len(abs))].id]; ok {
+						qh = ob.Hash()
+					}
+				}
+			case 2:
+				qh = hotstuff.Hash{}
+			}
+			b := hotstuff.NewBlock(ph, hotstuff.NewQuorumCert(nil, 0, qh),
 				&clientpb.Batch{Commands: []*clientpb.Command{{ClientID: 1, SequenceNumber: uint64(a.id), Data: []byte{byte(a.id)}}}},
 				hotstuff.View(a.view), hotstuff.ID(1+a.id%4))
 			blk[a.id] = b
